@@ -155,7 +155,7 @@ package shimagent
 //@   flag inline
 //@   loop 1:
 //@     flag keepquant
-//@     invariant true
+//@     invariant [no-earlier-match] forall(j, 0 <= j && j <= rangeindex && j < len(inAgentKeys), kb(inAgentKeys[j]) != blobid(pub), inAgentKeys[j])
 
 //@ func filterExpiredCerts$1(key)
 //@   flag inline
@@ -190,7 +190,8 @@ package shimagent
 //@     invariant distinctKeys(outer(inAgentKeys))
 //@     invariant arr(outer(inAgentKeys)) == arr(keysInAgent) && off(outer(inAgentKeys)) == off(keysInAgent) && len(outer(inAgentKeys)) <= len(keysInAgent)
 //@     invariant [tables-only-shrink] outer(forall(h#bytes, h in dom(s.certs), old(h in dom(s.certs)) && s.certs[h] == old(s.certs[h])))
-//@     invariant [no-listed-certificate-outside-its-validity-window] errs == nil ==> forall(p, 0 <= p && p < len(outer(inAgentKeys)) && p <= rangeindex,
+//@     # every key still in the list is fine, or a copy of it (possibly a stale one beyond the shrunken list) is yet to be visited
+//@     invariant [no-listed-certificate-outside-its-validity-window] errs == nil ==> forall(p, 0 <= p && p < len(outer(inAgentKeys)),
 //@       okBlob(kb(keysInAgent[p]), tUnix(now)) || exists(q, rangeindex < q && q < len(keysInAgent), kb(keysInAgent[q]) == kb(keysInAgent[p])))
 //@   loop 2:
 //@     invariant srvOK(outer(s)) && certsInMemory == outer(s).certs
